@@ -80,10 +80,12 @@ pub fn c12() -> bool {
         SignedEntry::from_entry(Entry::new(id, Record::new(Hash::new(key), key.len() as u64, now)), &ns, &author)
     };
     let (e1, e2) = (mk(b"dl/x"), mk(b"other"));
+    // a deletion marker whose key the policy selects: the flag is the policy's answer for the key
+    let e3 = SignedEntry::from_entry(Entry::new(RecordIdentifier::new(nsid, author.id(), b"dl/gone"), Record::empty(now)), &ns, &author);
     let range = Range::new(RecordIdentifier::default(), RecordIdentifier::default());
     let msg = message(vec![MessagePart::RangeItem(RangeItem {
         range,
-        values: vec![(e1.clone(), ContentStatus::Complete), (e2.clone(), ContentStatus::Incomplete)],
+        values: vec![(e1.clone(), ContentStatus::Complete), (e2.clone(), ContentStatus::Incomplete), (e3.clone(), ContentStatus::Complete)],
         have_local: true,
     })]);
     let mut outcome = SyncOutcome::default();
@@ -91,7 +93,11 @@ pub fn c12() -> bool {
     let mut bad = false;
     let mut n = 0;
     while let Ok(ev) = rx.try_recv() {
-        let (want_entry, want_status, want_dl) = if n == 0 { (&e1, ContentStatus::Complete, true) } else { (&e2, ContentStatus::Incomplete, false) };
+        let (want_entry, want_status, want_dl) = match n {
+            0 => (&e1, ContentStatus::Complete, true),
+            1 => (&e2, ContentStatus::Incomplete, false),
+            _ => (&e3, ContentStatus::Complete, true),
+        };
         match ev {
             Event::RemoteInsert { namespace, entry, from, should_download, remote_content_status } => {
                 let ok = namespace == nsid && &entry == want_entry && from == [9u8; 32] && should_download == want_dl && remote_content_status == want_status;
@@ -107,8 +113,8 @@ pub fn c12() -> bool {
         }
         n += 1;
     }
-    if n != 2 {
-        eprintln!("c12: expected 2 events, got {n}");
+    if n != 3 {
+        eprintln!("c12: expected 3 events, got {n}");
         bad = true;
     }
     bad
@@ -143,6 +149,8 @@ pub fn run(id: &str) -> Option<bool> {
         "c12" => c12(),
         "fp" => fp(),
         "c14" => crate::actor::verif_incrate::witness_c14(),
+        "c18" => crate::store::fs::verif_incrate::witness_c18::run(),
+        "c06" => crate::store::fs::verif_incrate::witness_c06::run(),
         _ => return None,
     })
 }
